@@ -765,6 +765,12 @@ theorem h1_error_guard : C04Sites.h11ErrorStates = ["IDLE", "SEND_RESPONSE"] ∧
     C04Sites.h11ErrorHeaders = [("content-length", "0"), ("connection", "close")] ∧ C04Sites.h11ErrorSendsEom = true ∧
     C04Sites.h11NextEvent = ["h11.RemoteProtocolError"] ∧ C04Sites.h11SendEvent = ["h11.LocalProtocolError"] := by decide
 
+/-- the guard under which `_handle_events` ignores a RemoteProtocolError, extracted as a function of its atoms, is
+    `stream is not None and request_complete` and nothing else (in particular it does not look at h11's writer) -/
+theorem h1_error_ignore_guard (streamLive requestComplete : Bool) (our their : Nat) :
+    Guards.h11ErrorIgnored streamLive requestComplete our their = (streamLive && requestComplete) := by
+  rfl
+
 /-- **h1_malformed**: `next_event()` raised RemoteProtocolError with hint `h` while no complete request is being answered
     and h11's writer is IDLE or SEND_RESPONSE: the protocol does exactly two things with h11 — `send(Response h
     [content-length: 0, connection: close, <server headers>])` and `send(EndOfMessage)` — then sends `Closed`, and the
@@ -776,7 +782,9 @@ theorem h1_malformed (cfg : H11.Cfg) (st : H11.St) (o0 : List H11.Out) (hint : N
       some ({ (H11.libSend (H11.libSend { st with lib := H11M.recvError st.lib } (H11.LibSend.response hint (errorHeaders cfg))).1 H11.LibSend.eom).1 with pc := .idle },
             o0 ++ ((H11.libSend { st with lib := H11M.recvError st.lib } (H11.LibSend.response hint (errorHeaders cfg))).2.1 ++
                    (H11.libSend (H11.libSend { st with lib := H11M.recvError st.lib } (H11.LibSend.response hint (errorHeaders cfg))).1 H11.LibSend.eom).2.1) ++ [H11.Out.upClosed]) := by
-  simp only [H11.onLibEvBody, hlive, errorHeaders]
+  have hign : H11.errIgnored { st with lib := H11M.recvError st.lib } = false := by
+    rw [H11.errIgnored_eq h1_error_ignore_guard]; exact hlive
+  simp only [H11.onLibEvBody, hign, errorHeaders]
   rcases hstate with h | h <;> simp [h]
 
 /-- a call into h11 starts no application and creates no stream -/
@@ -802,7 +810,9 @@ theorem h1_malformed_other_state (cfg : H11.Cfg) (st : H11.St) (o0 : List H11.Ou
     (hlive : (st.cur.isSome && st.requestComplete) = false)
     (hstate : (H11M.recvError st.lib).server ≠ .idle ∧ (H11M.recvError st.lib).server ≠ .sendResponse) :
     H11.onLibEvBody cfg st o0 (H11.LibEv.protoError hint) = some ({ st with lib := H11M.recvError st.lib, pc := .idle }, o0 ++ [H11.Out.upClosed]) := by
-  simp [H11.onLibEvBody, hlive, hstate.1, hstate.2]
+  have hign : H11.errIgnored { st with lib := H11M.recvError st.lib } = false := by
+    rw [H11.errIgnored_eq h1_error_ignore_guard]; exact hlive
+  simp [H11.onLibEvBody, hign, hstate.1, hstate.2]
 
 /-- the RemoteProtocolError path never fails (it is the one event the reader handles in every state) -/
 theorem h1_protocol_error_total (cfg : H11.Cfg) (st : H11.St) (o0 : List H11.Out) (hint : Nat) :
@@ -826,6 +836,31 @@ theorem h1_rejected_classified (cfg : H11.Cfg) (st : H11.St) (g : Ws.Frag) (e : 
     st.pc ≠ .inLoop ∨ st.switched = true ∨ H11.libPossible cfg st g e = false ∨ (H11.escapeEv cfg st e).isSome = true :=
   H11.none_classified cfg st g e (fun i s hi => (hI.wsObj i s hi).1) h
 
+/-- **h1_decode_sites_total**: every place where the reader's own glue (`_handle_events`, `_check_protocol`, `_create_stream`,
+    `H2CProtocolRequiredError.__init__`; extracted on every run with codec, operand and enclosing `except` clauses) turns
+    client-controlled bytes into text is total: the codec is latin-1 (defined on every byte), or the exception is caught at the
+    site, or the bytes are a request-line field / header name that h11's grammar restricts to ASCII.  In particular the VALUES of
+    the headers hypercorn reads itself (`Connection`, `Upgrade`, `HTTP2-Settings`) may hold any byte 0x80–0xff.  A source change
+    that decodes one of them with a partial codec outside a `try` makes this `decide` fail, and with it `total_h1`. -/
+theorem h1_decode_sites_total : H11.decodeSitesTotal = true := by decide
+
+/-- no request — whatever bytes its header values hold — makes a decode site of the reader's glue raise -/
+theorem h1_no_decode_escape (fn : String) (r : H11.ReqEv) : H11.decodeRaises fn r = false :=
+  H11.decodeRaises_false h1_decode_sites_total fn r
+
+/-- the sites are not vacuous: the three interpreted header values are among them, decoded with a total codec, uncaught -/
+theorem h1_decode_sites_cover :
+    (["connection", "upgrade", "http2-settings"].all (fun h =>
+      C04Sites.h11ReaderDecodes.any (fun (s : H11.DecodeSite) => s.cls == "headerValue" && s.header == h && H11.codecTotal s.codec))) = true := by
+  decide
+
+/-- what the obligation excludes, on the model: were `Connection` split with wsproto's ASCII `split_comma_header` outside a `try`
+    (site list below), a request with `Connection: k\xe9ep-alive` would make that site raise -/
+example : let site : H11.DecodeSite := ("H11Protocol._create_stream", "headerValue", "connection", "ascii", [])
+    H11.siteTotal site = false ∧
+    H11.valueBad site { method := "GET".b, target := "/".b, headers := [("connection".b, [107, 233, 101, 112])], version := "1.1".b } = true := by
+  decide
+
 /-- **total_h1** (from the initial state of a connection): for EVERY sequence of ops — results of `next_event()` /
     `H11WSConnection.next_event()` with the wsproto events they carry, `send` calls of ANY application on ANY stream object (valid
     or not, live or orphaned), `handle(Closed)`, shutdown, the deferred `StreamClosed` of a stream that answered by itself — such
@@ -834,18 +869,18 @@ theorem h1_rejected_classified (cfg : H11.Cfg) (st : H11.St) (g : Ws.Frag) (e : 
     of `WSStream.handle`) and the model accepts every op (never "rejected"). -/
 theorem total_h1 (cfg : H11.Cfg) (token : Bytes → Bytes) (ext : Option Bytes) (ops : List H11.OpT)
     (hwf : H11.LibWf cfg token ext {} none ops) : H11.NoEscape cfg token ext {} none ops :=
-  H11.noEscape_of_inv cfg token ext ops {} none H11.inv_init hwf
+  H11.noEscape_of_inv cfg token ext h1_decode_sites_total ops {} none H11.inv_init hwf
 
 /-- … and from any state satisfying the invariant -/
 theorem total_h1_from (cfg : H11.Cfg) (token : Bytes → Bytes) (ext : Option Bytes) (ops : List H11.OpT) (st : H11.St) (g : Ws.Frag)
     (hI : H11.Inv st g) (hwf : H11.LibWf cfg token ext st g ops) : H11.NoEscape cfg token ext st g ops :=
-  H11.noEscape_of_inv cfg token ext ops st g hI hwf
+  H11.noEscape_of_inv cfg token ext h1_decode_sites_total ops st g hI hwf
 
 /-- one op: enabled ⇒ nothing escapes, the model accepts it, the invariant is kept -/
 theorem total_h1_step (cfg : H11.Cfg) (token : Bytes → Bytes) (ext : Option Bytes) (st : H11.St) (g : Ws.Frag) (o : H11.OpT)
     (hI : H11.Inv st g) (hen : H11.enabled cfg st g o = true) :
     H11.escapeT cfg st o = none ∧ ∃ r, H11.stepT cfg token ext st o = some r ∧ H11.Inv r.1 (H11.ghostT g o) :=
-  H11.step_ok cfg token ext st g o hI hen
+  H11.step_ok cfg token ext st g o hI hen h1_decode_sites_total
 
 /-- in the driver's terms: a LibWf run is never "rejected" -/
 theorem total_h1_never_rejected (cfg : H11.Cfg) (token : Bytes → Bytes) (ext : Option Bytes) (ops : List H11.OpT)
